@@ -83,13 +83,12 @@ class CaptureRegion:
                                  being presented.
         """
         read_start = current_position - len(chunk)
-        if (read_start <= self.offset <= current_position or
-                self.offset <= read_start <= (self.offset + self.length)):
-            if read_start < self.offset:
-                lead_gap = self.offset - read_start
-            else:
-                lead_gap = 0
-            self.data += chunk[lead_gap:]
+        # The next byte we want is the one following what we already hold.
+        # Only take data from a chunk that actually covers that position;
+        # a chunk that starts past it cannot be a continuation.
+        wanted = self.offset + len(self.data)
+        if read_start <= wanted <= current_position:
+            self.data += chunk[wanted - read_start:]
             self.data = self.data[:self.length]
 
 
